@@ -501,6 +501,98 @@ LEXEMES = ["real_num", "int_num", "hex_num", "ansi_string", "regex_string", "mys
            "mysql_backtick_ident", "sqlserver_ident", "ident_w_dash", "simple_ident", "sqlserver_local_ident"]
 
 
+
+# ---------------------------------------------------------------------------------------------------------------
+# Pinned regular expressions and equivalent rewrites.  The obligations `patterns_pinned`, `terminals_pinned`,
+# `engines_pinned` and the node signatures of `dialect_diff_confined` compare pattern TEXTS with the ones the models were
+# written against (lean/MoSql/Ref.lean).  A maintainer may rewrite a pattern into an equivalent one; so a pattern whose
+# text is not a pinned one is compared with every pinned pattern on a corpus of strings (all strings up to length 4
+# over the characters that matter to these tokens, plus random longer ones): if it behaves exactly like a pinned one
+# (same match / same end everywhere) the pinned text is emitted for it, and the rewrite is recorded in gen.json.
+_PINNED = None
+_CANON_CACHE = {}
+_CORPUS = None
+
+
+def _lean_unescape(t):
+    out, i = [], 0
+    while i < len(t):
+        c = t[i]
+        if c == "\\" and i + 1 < len(t):
+            n = t[i + 1]
+            out.append({"n": "\n", "t": "\t", "r": "\r"}.get(n, n))
+            i += 2
+        else:
+            out.append(c)
+            i += 1
+    return "".join(out)
+
+
+def pinned_patterns():
+    global _PINNED
+    if _PINNED is None:
+        import re as _re
+        _PINNED = []
+        try:
+            src = open(os.path.join(VERIF, "lean", "MoSql", "Ref.lean"), encoding="utf8").read()
+        except OSError:
+            src = ""
+        for m in _re.finditer(r'"((?:\\.|[^"\\])*)"', src):
+            t = _lean_unescape(m.group(1))
+            if len(t) >= 6 and any(ch in t for ch in "[(\\*+?"):
+                _PINNED.append(t)
+    return _PINNED
+
+
+def _corpus():
+    global _CORPUS
+    if _CORPUS is None:
+        import itertools, random
+        small = ["'", '"', "`", "[", "]", "\\", "0", "9", "a", "e", "E", "x", "N", "_", "$", "@", "-", "+", ".", " ", "\n", "r", "n", "\u00e9", "\u01bf", "\u01c0", "#", "/", "*", "d"]
+        core = ["'", '"', "`", "[", "]", "\\", "0", "a", "e", "-", "+", ".", " ", "\n", "x", "_"]
+        out = [""]
+        for n in (1, 2):
+            out += ["".join(p) for p in itertools.product(small, repeat=n)]
+        for n in (3, 4):
+            out += ["".join(p) for p in itertools.product(core[:11], repeat=n)]
+        r = random.Random(20260930)
+        for _ in range(6000):
+            out.append("".join(r.choice(small) for _ in range(r.randint(5, 14))))
+        out += ["delimiter $$", " delimiter ;\n", "DELIMITER  //  ", "delimiter", "0x1F", "1e5", "1.5e-7", ".5", "5.", "1e-5", "_utf8'a'", "N'x'", "r'a\\'b'", "a-b", "a--b", "a-1"]
+        _CORPUS = out
+    return _CORPUS
+
+
+def canon_pattern(pat, flags=0):
+    """the pinned text if `pat` is a pinned pattern or behaves exactly like one on the corpus, else `pat` itself"""
+    import re as _re
+    key = (pat, flags)
+    if key in _CANON_CACHE:
+        return _CANON_CACHE[key]
+    pins = pinned_patterns()
+    res = pat
+    if pat not in pins and pat:
+        try:
+            rx = _re.compile(pat, flags)
+            mine = [(m.end() if m else None) for m in (rx.match(s) for s in _corpus())]
+            for q in pins:
+                try:
+                    rq = _re.compile(q, flags)
+                except _re.error:
+                    continue
+                if all((m.end() if m else None) == e for m, e in zip((rq.match(s) for s in _corpus()), mine)):
+                    res = q
+                    REWRITES.append({"source": pat, "equivalent_pinned": q, "strings_compared": len(_corpus())})
+                    break
+        except _re.error:
+            pass
+    _CANON_CACHE[key] = res
+    return res
+
+
+REWRITES = []
+
+
 def extract_lexemes(X):
     """the regular expressions behind the literal / identifier tokens, and the delimiter pre-pass"""
     import mo_sql_parsing as M
@@ -529,12 +621,13 @@ def extract_lexemes(X):
         ps = find(o)
         if not ps:
             X.problem("lexemes", "no regular expression found behind utils.%s" % n)
-        pats.append((n, "|".join(ps)))
-    pats.append(("delimiter_pattern", M.delimiter_pattern.pattern))
+        pats.append((n, "|".join(canon_pattern(x) for x in ps)))
+    pats.append(("delimiter_pattern", canon_pattern(M.delimiter_pattern.pattern, int(M.delimiter_pattern.flags))))
     pats.append(("delimiter_flags", str(int(M.delimiter_pattern.flags))))
-    pats.append(("VALID", F.VALID.pattern))
+    pats.append(("VALID", canon_pattern(F.VALID.pattern, int(F.VALID.flags))))
     pats.append(("VALID_flags", str(int(F.VALID.flags))))
     X.data["lex_patterns"] = pats
+    X.data["pattern_rewrites"] = REWRITES
 
 
 def to_ranges(chars):
@@ -651,7 +744,7 @@ def extract_graph(X, builds):
             fn = getattr(pa, "__wrapped__", pa)
             acts.append(getattr(fn, "__name__", None) or getattr(getattr(pa, "action", None), "__name__", None) or type(pa).__name__)
         return "%s|%s|%s|%s|%s" % (type(e).__name__, str(getattr(e, "parser_name", "") or "")[:40], mt if isinstance(mt, str) else "",
-                                   pat[:80], ",".join(acts))
+                                   (canon_pattern(pat) if type(e).__name__ == "Regex" else pat)[:80], ",".join(acts))
 
     sigs = {}
     for (name, ac), parser in builds.items():
@@ -680,7 +773,7 @@ def extract_graph(X, builds):
             ws = getattr(cfg, "whitespace", None) if cfg is not None else None
             if ws is not None and hasattr(ws, "white_chars") and getattr(ws, "regex", None) is not None:
                 kind = "none" if not ws.white_chars else ("comment" if ws.ignore_list else "standard")
-                engines.add((kind, ws.regex.pattern, str(int(ws.regex.flags))))
+                engines.add((kind, canon_pattern(ws.regex.pattern, int(ws.regex.flags)), str(int(ws.regex.flags))))
             tn = type(e).__name__
             if tn in ("Keyword", "Literal"):
                 # CaselessKeyword / CaselessLiteral are separate classes; these two compare exactly
@@ -711,7 +804,7 @@ def extract_graph(X, builds):
                 elif _re.fullmatch(r"\[[^\]]*\](?:\[[^\]]*\][*+]?)?[*+]?", pat):
                     term_kinds["word"] = term_kinds.get("word", 0) + 1
                 else:
-                    other_terms.add(pat)
+                    other_terms.add(canon_pattern(pat))
             elif tn in ("SkipTo", "StringEnd", "LineEnd", "AnyChar", "NoMatch", "CharsNotIn", "White"):
                 other_terms.add("<" + tn + ">")
     X.data["terminal_kinds"] = term_kinds
